@@ -148,3 +148,76 @@ def catches(handler: ast.ExceptHandler, exc: str) -> bool:
 
 def handler_catches_all_of(try_node: ast.Try, excs) -> bool:
     return all(any(catches(h, e) for h in try_node.handlers) for e in excs)
+
+
+def concat_pieces(node):
+    """A string-building expression (+ chain, f-string, '%s' % ..., "".join([...]), str.format) as a
+    list of ('lit', text) / ('expr', normalised text) pieces; None if it is not one."""
+    if isinstance(node, ast.Constant) and isinstance(node.value, str):
+        return [("lit", node.value)] if node.value else []
+    if isinstance(node, ast.BinOp) and isinstance(node.op, ast.Add):
+        a, b = concat_pieces(node.left), concat_pieces(node.right)
+        if a is None:
+            a = [("expr", norm(node.left))]
+        if b is None:
+            b = [("expr", norm(node.right))]
+        return _merge(a + b)
+    if isinstance(node, ast.JoinedStr):
+        out = []
+        for v in node.values:
+            if isinstance(v, ast.Constant):
+                out.append(("lit", str(v.value)))
+            elif isinstance(v, ast.FormattedValue):
+                out.append(("expr", norm(v.value)))
+        return _merge(out)
+    if isinstance(node, ast.BinOp) and isinstance(node.op, ast.Mod) and isinstance(node.left, ast.Constant) and isinstance(node.left.value, str):
+        import re as _re
+
+        ops = node.right.elts if isinstance(node.right, ast.Tuple) else [node.right]
+        out, i = [], 0
+        for seg in _re.split(r"(%s)", node.left.value):
+            if seg == "%s":
+                if i < len(ops):
+                    out.append(("expr", norm(ops[i])))
+                i += 1
+            elif seg:
+                out.append(("lit", seg))
+        return _merge(out)
+    if isinstance(node, ast.Call) and isinstance(node.func, ast.Attribute) and node.func.attr == "join" \
+            and isinstance(node.func.value, ast.Constant) and isinstance(node.func.value.value, str) and node.args \
+            and isinstance(node.args[0], (ast.List, ast.Tuple)):
+        sep = node.func.value.value
+        out = []
+        for i, e in enumerate(node.args[0].elts):
+            if i and sep:
+                out.append(("lit", sep))
+            p = concat_pieces(e)
+            out.extend(p if p is not None else [("expr", norm(e))])
+        return _merge(out)
+    if isinstance(node, ast.Call) and isinstance(node.func, ast.Attribute) and node.func.attr == "format" \
+            and isinstance(node.func.value, ast.Constant) and isinstance(node.func.value.value, str) and not node.keywords:
+        import re as _re
+
+        out, i = [], 0
+        for seg in _re.split(r"(\{\d*\})", node.func.value.value):
+            if _re.fullmatch(r"\{\d*\}", seg or ""):
+                k = int(seg[1:-1]) if seg[1:-1] else i
+                if k < len(node.args):
+                    out.append(("expr", norm(node.args[k])))
+                i += 1
+            elif seg:
+                out.append(("lit", seg))
+        return _merge(out)
+    return None
+
+
+def _merge(pieces):
+    out = []
+    for k, v in pieces:
+        if k == "lit" and out and out[-1][0] == "lit":
+            out[-1] = ("lit", out[-1][1] + v)
+        elif k == "lit" and not v:
+            continue
+        else:
+            out.append((k, v))
+    return out
